@@ -206,12 +206,15 @@ theorem strN_congr (i : Nat) {b : List (Nat × Nat)} (hb : ∀ p ∈ b, OnB pb p
 
 theorem tB_congr (i : Nat) {b : List (Nat × Nat)} (hb : ∀ p ∈ b, OnB pb p) :
     tB pb σ i b = tB pb σ' i b := by
+  have key : ∀ p ∈ b, tCell pb σ i p = tCell pb σ' i p := by
+    intro p hp
+    unfold tCell
+    rw [List.filter_congr (fun q hq => h q (sameN_onB (hb p hp) hq))]
   unfold tB
-  apply List.any_congr
-  intro p hp
-  unfold tCell
-  congr 3
-  exact List.filter_congr (fun q hq => h q (sameN_onB (hb p hp) hq))
+  rw [Bool.eq_iff_iff, List.any_eq_true, List.any_eq_true]
+  constructor
+  · rintro ⟨p, hp, ht⟩; exact ⟨p, hp, by rw [← key p hp]; exact ht⟩
+  · rintro ⟨p, hp, ht⟩; exact ⟨p, hp, by rw [key p hp]; exact ht⟩
 
 end Congr
 
@@ -235,7 +238,7 @@ theorem Q_congr {pb : Problem} (hwf : WellFormed pb) {σ σ' : Asg}
 
 theorem base_ge (pb : Problem) : pb.height * pb.width ≤ base pb := by unfold base; omega
 
-theorem qcs_iff {pb : Problem} (hwf : WellFormed pb) (τ : Asg) :
+theorem qcs_iff {pb : Problem} (τ : Asg) :
     (∀ c ∈ qcs pb, eval τ c = some (.b true)) ↔
       (∀ i, i < pb.blocks.length → τ.i (base pb + i) = (sVal pb τ i : Nat)) ∧
       (∀ i, i < pb.blocks.length → τ.b (base pb + pb.blocks.length + i) = tVal pb τ i) ∧
@@ -306,7 +309,7 @@ theorem realizable_q {pb : Problem} (hwf : WellFormed pb) (σ : Asg) :
   · rintro ⟨σ', hag, hd, hc⟩
     have hsh := sh_congr (base_ge pb) hag
     have hd' := (sat_rank_decls hrest (fun k => σ'.i (base pb + k))).1 hd
-    obtain ⟨hs, ht, hbd⟩ := (qcs_iff hwf σ').1 hc
+    obtain ⟨hs, ht, hbd⟩ := (qcs_iff σ').1 hc
     apply Q_congr hwf (fun q hq => (hsh q hq).symm)
     refine ⟨?_, ?_⟩
     · intro i hi
@@ -354,12 +357,220 @@ theorem realizable_q {pb : Problem} (hwf : WellFormed pb) (σ : Asg) :
       rw [hi' i]
       have := h1 i hi
       omega
-    · apply (qcs_iff hwf σ').2
+    · apply (qcs_iff σ').2
       refine ⟨fun i _ => by rw [hi' i, hs i], fun i _ => by rw [hb' i, ht i], ?_⟩
       intro p q hp hq hpq hne hsp hsq
       rw [hi', hi', hb', hb']
       rcases h2 p q hp hq hpq hne (by rw [hsh p hp]; exact hsp) (by rw [hsh q hq]; exact hsq) with h | h
       · left; intro he; apply h; exact_mod_cast he
       · right; exact h
+
+/-! ### from the solver's conditions to the rules -/
+
+section Rules
+variable {pb : Problem} (hwf : WellFormed pb) (σ : Asg) (g : Nat → Nat → Bool)
+  (hg : ∀ y, y < pb.height → ∀ x, x < pb.width → g y x = σ.b (y * pb.width + x))
+include hwf hg
+
+omit hwf in
+theorem sh_eq_g {p : Nat × Nat} (hp : OnB pb p) : sh pb σ p = g p.1 p.2 := by
+  unfold sh; rw [hg _ hp.1 _ hp.2]
+
+theorem noSq_iff : NoSqσ pb σ ↔ NoSquare pb g := by
+  constructor
+  · intro h y x hy hx
+    have := h (y, x) hy hx
+    rw [sh_eq_g σ g hg ⟨by simp only; omega, by simp only; omega⟩,
+      sh_eq_g σ g hg ⟨by simp only; omega, by simp only; omega⟩,
+      sh_eq_g σ g hg ⟨by simp only; omega, by simp only; omega⟩,
+      sh_eq_g σ g hg ⟨by simp only; omega, by simp only; omega⟩] at this
+    exact this
+  · intro h p hy hx
+    have := h p.1 p.2 hy hx
+    rw [sh_eq_g σ g hg ⟨by simp only; omega, by simp only; omega⟩,
+      sh_eq_g σ g hg ⟨by simp only; omega, by simp only; omega⟩,
+      sh_eq_g σ g hg ⟨by simp only; omega, by simp only; omega⟩,
+      sh_eq_g σ g hg ⟨by simp only; omega, by simp only; omega⟩]
+    exact this
+
+omit hg in
+/-- Rule 3 excludes the square inside a region. -/
+theorem noSq_list (hsq : NoSqσ pb σ) {i : Nat} {b : List (Int × Int)} (hb : pb.blocks[i]? = some b) :
+    NoSq (shL pb σ b) := by
+  rintro ⟨y, x, h1, h2, h3, h4⟩
+  obtain ⟨⟨o1, _⟩, s1⟩ := (mem_shL hwf hb σ).1 h1
+  obtain ⟨⟨o2, _⟩, s2⟩ := (mem_shL hwf hb σ).1 h2
+  obtain ⟨⟨o3, _⟩, s3⟩ := (mem_shL hwf hb σ).1 h3
+  obtain ⟨_, s4⟩ := (mem_shL hwf hb σ).1 h4
+  exact hsq (y, x) o3.1 o2.2 ⟨s1, s2, s3, s4⟩
+
+theorem regions_iff (hsq : NoSqσ pb σ) :
+    (∀ (i : Nat) (b : List (Int × Int)), pb.blocks[i]? = some b → Counts (shL pb σ b)) ↔
+      ∀ b ∈ pb.blocks, IsTetromino (shadedIn g b) := by
+  constructor
+  · intro h b hbm
+    obtain ⟨i, hi, rfl⟩ := List.getElem_of_mem hbm
+    have hb : pb.blocks[i]? = some pb.blocks[i] := List.getElem?_eq_getElem hi
+    rw [shadedIn_eq hwf hb σ g hg]
+    exact tetromino_of_counts (shL_nodup hwf hb σ) (h i _ hb)
+  · intro h i b hb
+    have := h b (List.mem_of_getElem? hb)
+    rw [shadedIn_eq hwf hb σ g hg] at this
+    exact counts_of_tetromino (shL_nodup hwf hb σ) this (noSq_list hwf σ hsq hb)
+
+/-- The determined values of the auxiliary arrays are the code of the tetromino. -/
+theorem region_vals {i : Nat} {b : List (Int × Int)} (hb : pb.blocks[i]? = some b) (hc : Counts (shL pb σ b)) :
+    sVal pb σ i = straightCount (shadedIn g b) ∧ sVal pb σ i ≤ 2 ∧
+      (tVal pb σ i = true ↔ HasT (shadedIn g b)) := by
+  obtain ⟨h1, h2, h3⟩ := code_of_counts (shL_nodup hwf hb σ) hc
+  have hs : sVal pb σ i = (shL pb σ b).countP (midB (shL pb σ b)) := by
+    rw [sVal, blk_eq hb, strN_eq hwf hb σ]
+  rw [shadedIn_eq hwf hb σ g hg, hs]
+  refine ⟨h1.symm, h2, ?_⟩
+  rw [h3, tVal, blk_eq hb, tB_iff hwf hb σ]
+  constructor
+  · rintro ⟨p, _, hp⟩; exact ⟨p, hp⟩
+  · rintro ⟨p, hp⟩
+    have hm := tcell_mem _ (shL_nodup hwf hb σ) hc.1 hc.2.1 hc.2.2 p hp
+    exact ⟨p, (List.mem_filter.1 hm).1, hp⟩
+
+theorem mem_shadedIn {i : Nat} {b : List (Int × Int)} (hb : pb.blocks[i]? = some b) {p : Nat × Nat} :
+    p ∈ shadedIn g b ↔ (OnB pb p ∧ regionIdx pb p = i) ∧ sh pb σ p = true := by
+  rw [shadedIn_eq hwf hb σ g hg]
+  exact mem_shL hwf hb σ
+
+theorem rule4_iff
+    (hc : ∀ (i : Nat) (b : List (Int × Int)), pb.blocks[i]? = some b → Counts (shL pb σ b)) :
+    Q pb σ ↔
+      (∀ (i j : Nat) (bi bj : List (Int × Int)), pb.blocks[i]? = some bi → pb.blocks[j]? = some bj → i ≠ j →
+        ∀ p ∈ shadedIn g bi, ∀ q ∈ shadedIn g bj, cellGraph.Adj p q →
+          ¬ SameCode (shadedIn g bi) (shadedIn g bj)) := by
+  have hdiff : ∀ (i j : Nat) (bi bj : List (Int × Int)), pb.blocks[i]? = some bi → pb.blocks[j]? = some bj →
+      ((sVal pb σ i ≠ sVal pb σ j ∨ tVal pb σ i ≠ tVal pb σ j) ↔
+        ¬ SameCode (shadedIn g bi) (shadedIn g bj)) := by
+    intro i j bi bj hbi hbj
+    obtain ⟨a1, _, a3⟩ := region_vals hwf σ g hg hbi (hc i bi hbi)
+    obtain ⟨b1, _, b3⟩ := region_vals hwf σ g hg hbj (hc j bj hbj)
+    unfold SameCode
+    rw [← a1, ← b1, ← a3, ← b3]
+    cases tVal pb σ i <;> cases tVal pb σ j <;> simp
+  constructor
+  · rintro ⟨_, hbd⟩ i j bi bj hbi hbj hij p hp q hq hadj
+    obtain ⟨⟨op, rp⟩, sp⟩ := (mem_shadedIn hwf σ g hg hbi).1 hp
+    obtain ⟨⟨oq, rq⟩, sq⟩ := (mem_shadedIn hwf σ g hg hbj).1 hq
+    have hne : regionIdx pb p ≠ regionIdx pb q := by rw [rp, rq]; exact hij
+    obtain ⟨p1, p2⟩ := p
+    obtain ⟨q1, q2⟩ := q
+    have hadj' : (p1 = q1 ∧ (p2 + 1 = q2 ∨ q2 + 1 = p2)) ∨ (p2 = q2 ∧ (p1 + 1 = q1 ∨ q1 + 1 = p1)) := hadj
+    rcases hadj' with ⟨rfl, rfl | rfl⟩ | ⟨rfl, rfl | rfl⟩
+    · have := hbd _ _ op oq (Or.inr rfl) hne sp sq
+      rw [rp, rq] at this
+      exact (hdiff i j bi bj hbi hbj).1 this
+    · have := hbd _ _ oq op (Or.inr rfl) hne.symm sq sp
+      rw [rp, rq] at this
+      exact (hdiff i j bi bj hbi hbj).1 (this.imp Ne.symm Ne.symm)
+    · have := hbd _ _ op oq (Or.inl rfl) hne sp sq
+      rw [rp, rq] at this
+      exact (hdiff i j bi bj hbi hbj).1 this
+    · have := hbd _ _ oq op (Or.inl rfl) hne.symm sq sp
+      rw [rp, rq] at this
+      exact (hdiff i j bi bj hbi hbj).1 (this.imp Ne.symm Ne.symm)
+  · intro h4
+    refine ⟨?_, ?_⟩
+    · intro i hi
+      have hb : pb.blocks[i]? = some pb.blocks[i] := List.getElem?_eq_getElem hi
+      exact (region_vals hwf σ g hg hb (hc i _ hb)).2.1
+    · intro p q hp hq hpq hne sp sq
+      obtain ⟨bi, hbi, _⟩ := regionIdx_spec hwf hp
+      obtain ⟨bj, hbj, _⟩ := regionIdx_spec hwf hq
+      rw [hdiff _ _ bi bj hbi hbj]
+      apply h4 _ _ bi bj hbi hbj hne p ((mem_shadedIn hwf σ g hg hbi).2 ⟨⟨hp, rfl⟩, sp⟩) q
+        ((mem_shadedIn hwf σ g hg hbj).2 ⟨⟨hq, rfl⟩, sq⟩)
+      rcases hpq with rfl | rfl
+      · exact Or.inr ⟨rfl, Or.inl rfl⟩
+      · exact Or.inl ⟨rfl, Or.inl rfl⟩
+
+end Rules
+
+/-! ### the theorem (code reading of rule 4) -/
+
+theorem avc_varsBelow (pb : Problem) :
+    ∀ c ∈ (avc pb).cs, wtB c = true ∧
+      c.varsBelow (pb.height * pb.width + (avc pb).decls.length) = true :=
+  C11FragWT.avcProg_wt (C04Prim.grid_wf _ _) (by simp [bvars, Graph.grid]) (C11FragWT.bvars_boolArgs _)
+
+theorem encodes_code {pb : Problem} (hwf : WellFormed pb) :
+    EncodesRules { decls := List.replicate (pb.height * pb.width) .bool ++ (avc pb ++ qProg pb).decls,
+                   cs := (avc pb).cs ++ sqCs pb ++ regionCs pb ++ borderCs pb,
+                   keys := List.range (pb.height * pb.width) } (RulesCode pb) := by
+  apply C11Frag.encodes_bool_grid_frag pb.height pb.width (avc pb ++ qProg pb) (loc pb) _ (RulesGridCode pb)
+    mem_cs (fun c hc => (loc_wt hwf c hc).2)
+  intro σ g hg
+  have hq : ∀ τ, Realizable (pb.height * pb.width + (avc pb).decls.length) (qProg pb) τ ↔ Q pb τ := by
+    intro τ
+    rw [avc_decls_length]
+    exact realizable_q hwf τ
+  have hQ : ∀ τ τ', AgreeBelow (pb.height * pb.width) τ τ' → (Q pb τ ↔ Q pb τ') := by
+    intro τ τ' hag
+    have h1 := sh_congr (Nat.le_refl _) hag
+    exact ⟨Q_congr hwf h1, Q_congr hwf (fun q hq => (h1 q hq).symm)⟩
+  rw [C11Frag.realizable_append (fun c hc => (avc_varsBelow pb c hc).2) hq hQ σ]
+  have hreal := Cspuz.C04.C04_aux_exact (Graph.grid pb.height pb.width) (bvars 0 (pb.height * pb.width))
+    (pb.height * pb.width) false (avc pb) σ (C04Prim.grid_wf _ _) (by intro h; cases h)
+    (by simp [bvars, Graph.grid]) (C11FragWT.bvars_boolArgs _) (avc_eq hwf)
+  simp only [Bool.false_eq_true, if_false] at hreal
+  rw [hreal, C11CellGraph.activeConnected_grid_iff pb.height pb.width _ (fun y x => g y x = true) (by
+    intro y x hy hx
+    rw [C11FragWT.truthAt_bvars σ _ _ (C11Grid.cell_lt hy hx), hg y hy x hx]), loc_iff hwf σ]
+  unfold RulesGridCode RulesGridWith
+  constructor
+  · rintro ⟨⟨hconn, hQσ⟩, hsq, hcnt⟩
+    exact ⟨(regions_iff hwf σ g hg hsq).1 hcnt, hconn, (noSq_iff hwf σ g hg).1 hsq,
+      (rule4_iff hwf σ g hg hcnt).1 hQσ⟩
+  · rintro ⟨h1, hconn, h3, h4⟩
+    have hsq := (noSq_iff hwf σ g hg).2 h3
+    have hcnt := (regions_iff hwf σ g hg hsq).2 h1
+    exact ⟨⟨hconn, (rule4_iff hwf σ g hg hcnt).2 h4⟩, hsq, hcnt⟩
+
+theorem qcs_wt (pb : Problem) : ∀ c ∈ qcs pb, wtB c = true := by
+  intro c hc
+  rcases List.mem_append.1 hc with hc | hc
+  · obtain ⟨⟨b, i⟩, _, hc⟩ := List.mem_flatMap.1 hc
+    simp only [qB, List.mem_cons, List.not_mem_nil, or_false] at hc
+    rcases hc with rfl | rfl
+    · exact nsE_wt pb i _
+    · exact htE_wt pb i _
+  · obtain ⟨p, _, hc | hc⟩ := mem_borderCs.1 hc
+    · unfold downE at hc
+      split at hc
+      · simp only [List.mem_singleton] at hc; subst hc; exact borderE_wt _ _ _ _ _
+      · simp at hc
+    · unfold rightE at hc
+      split at hc
+      · simp only [List.mem_singleton] at hc; subst hc; exact borderE_wt _ _ _ _ _
+      · simp at hc
+
+theorem program_eq' {pb : Problem} (hwf : WellFormed pb) :
+    program pb = .ok
+      { decls := List.replicate (pb.height * pb.width) .bool ++ (avc pb ++ qProg pb).decls,
+        cs := (avc pb).cs ++ sqCs pb ++ regionCs pb ++ borderCs pb,
+        keys := List.range (pb.height * pb.width) } := by
+  rw [program_eq hwf]
+  simp [qProg, List.append_assoc]
+
+/-- The theorem for the code reading of rule 4. -/
+theorem main_code (pb : Problem) (hwf : WellFormed pb) (P : PuzzleProg) (hP : program pb = .ok P) :
+    EncodesRules P (RulesCode pb) ∧ P.KeysOk ∧ (∀ c ∈ P.cs, wtB c = true) := by
+  rw [program_eq' hwf] at hP
+  cases hP
+  refine ⟨encodes_code hwf, C11Frag.keysOk_range_le _ _ _ (by simp), ?_⟩
+  intro c hc
+  rcases (mem_cs c).1 hc with hc | hc
+  · rcases List.mem_append.1 hc with hc | hc
+    · exact (avc_varsBelow pb c hc).1
+    · exact qcs_wt pb c hc
+  · exact (loc_wt hwf c hc).1
+
+theorem total (pb : Problem) (hwf : WellFormed pb) : ∃ P, program pb = .ok P := ⟨_, program_eq hwf⟩
 
 end Cspuz.Proofs.C11Lits
